@@ -18,7 +18,7 @@ RULE = (
     "the database cache and the pool: (category, type, unit, composing units/categories, joined exponents, deep "
     "copy of the composing map, caption, IsDerived, repr, hash) equals the tuple recorded at first sight. Per step: "
     "same request twice -> identical object; same resolution -> == and equal hash; different resolution -> !=; "
-    "copy/deepcopy -> identical; pickle -> equal; mutators raise ReadOnlyError/AttributeError. A Scalar / Array / FixedArray built on a pool quantity (constructor and CreateWithQuantity), its CreateCopy, copy and pickle hold a quantity equal to it with the same hash, caption and snapshot. The list form with tuple entries also takes a caption. Non-trivial = sequence "
+    "copy/deepcopy -> identical; pickle -> equal; mutators raise ReadOnlyError/AttributeError. A Scalar / Array / FixedArray built on a pool quantity (constructor and CreateWithQuantity), its CreateCopy, copy and pickle hold a quantity equal to it with the same hash, caption and snapshot. The list form with tuple entries also takes a caption. A refused AddCategory(override=True) between requests changes nothing: the same requests keep returning the very same objects. Non-trivial = sequence "
     "with a derived/empty/captioned quantity or a failed operation after >= 1 arithmetic step; key = the sequence."
 )
 ASSUMPTIONS = ["callers mutating the map returned by GetCategoryToUnitAndExps() themselves are outside 'public operations'"]
@@ -343,6 +343,19 @@ class Machine:
             if not (b == a and a == b) or hash(a) != hash(b):
                 self.fail("pickle_round_trip_not_equal", "%r -> %r" % (a, b))
             self.add(b, res_key(a))
+        elif kind == "rejected_override":
+            # an AddCategory(override=True) that is refused (a default unit of another quantity type) changes nothing: the
+            # same requests keep returning the very same objects (same_as_before watches the whole history)
+            u, c = UNITS[op[1] % len(UNITS)]
+            try:
+                self.db.AddCategory(c, self.db.GetCategoryQuantityType(c), override=True, default_unit="kg" if self.db.GetCategoryQuantityType(c) != "mass" else "s")
+            except Exception as e:
+                if core.tree_frame(e) is None:
+                    raise
+                self.flags.add("failed_op")
+                self.ctx.cls("override_rejected")
+            else:
+                raise core.HarnessError("the override was expected to be rejected")
         elif kind == "wrap":
             # value objects built on a quantity carry that quantity - category, unit, caption, equality class and hash -
             # through construction, copies and (Scalar, FixedArray) pickling
@@ -424,6 +437,7 @@ def op_strategy():
         st.tuples(st.just("pickle"), i, i),
         st.tuples(st.just("mutate"), i),
         st.tuples(st.just("wrap"), i, i, i),
+        st.tuples(st.just("rejected_override"), i),
     )
 
 
